@@ -90,7 +90,9 @@ class ContextService(ServiceWithOperations):
                         descr = self._mdib.descriptions.handle.get_one(handle, allow_none=True)
                         if descr:
                             if pm_names.MdsDescriptor == descr.NODETYPE:
-                                tmp = list(self._mdib.context_states.objects)
+                                # only the context states of this mds (the mdib can contain more than one)
+                                tmp = [state for state in self._mdib.context_states.objects
+                                       if state.source_mds in (None, descr.Handle)]
                     if tmp:
                         for state in tmp:
                             context_state_containers_lookup[state.Handle] = state
